@@ -258,17 +258,29 @@ theorem C02_http_unary_error_outcome (ops : List HOp) (e : HErr) (ctxDone : Bool
   have hne := unaryCode_ne_zero e
   exact ⟨by simp [serve, client, hne], hne, unaryCode_eq_trailerCode e⟩
 
-/-- a response reaches the caller as that response -/
-theorem C02_http_unary_success_outcome (ops : List HOp) (m : Nat) (ctxDone : Bool) :
+/-- a response reaches the caller as that response — **partial**: proved for handlers that set no header
+    metadata under the protocol's own status header name. The full statement is false of the code
+    (known finding C02-F2, `C02_http_unary_status_header_spoof`). -/
+theorem C02_http_unary_success_outcome_partial (ops : List HOp) (m : Nat) (ctxDone : Bool) (hn : noStatusHeader ops = true) :
     (client (serve ops (.resp m true) ctxDone).1).result = .msg m := by
   have h200 : Codes.codeFromHttpStatus 200 = 0 := by decide
-  simp [serve, client, h200]
+  have hs := runOps_noSpoof ops {} hn
+  simp only at hs
+  simp [serve, client, h200, hs]
 
-/-- a response that cannot be encoded is reported as an error, never as success -/
-theorem C02_http_unary_unencodable_is_error (ops : List HOp) (m : Nat) (ctxDone : Bool) :
+/-- **the excluded point, as a witness**: a handler that returns a response but has put `x-grpc-status: 5:…`
+    into its header metadata makes the caller report code 5 — replayed on the implementation by the HU
+    scripts (`sethdrx:5`), recorded as known finding C02-F2 -/
+theorem C02_http_unary_status_header_spoof :
+    (client (serve [.setStatusHeader 5] (.resp 7 true) false).1).result = .status 5 := by decide
+
+/-- a response that cannot be encoded is reported as an error, never as success (same restriction) -/
+theorem C02_http_unary_unencodable_is_error (ops : List HOp) (m : Nat) (ctxDone : Bool) (hn : noStatusHeader ops = true) :
     ∃ c, c ≠ 0 ∧ (client (serve ops (.resp m false) ctxDone).1).result = .status c := by
   have h500 : Codes.codeFromHttpStatus 500 ≠ 0 := by decide
-  exact ⟨Codes.codeFromHttpStatus 500, h500, by simp [serve, client, h500]⟩
+  have hs := runOps_noSpoof ops {} hn
+  simp only at hs
+  exact ⟨Codes.codeFromHttpStatus 500, h500, by simp [serve, client, h500, hs]⟩
 
 end HttpUnary
 
